@@ -56,6 +56,24 @@ type kase struct {
 	Load    string   `json:"load"`
 	OptTags []string `json:"optTags"`
 	YTags   []string `json:"yTags"`
+	Car     string   `json:"car"` // carrier file with // yaegi:tags foo, presented before the file: none | incl | hdr | name
+}
+
+// carrier is the name and content of the carrier file of the case ("" if none).
+func (k *kase) carrier() (string, string) {
+	// an operating system that is neither the target nor a word of any generated tag set
+	const other = "plan9"
+	switch k.Car {
+	case "incl":
+		return "a_car.go", "// yaegi:tags foo\n\npackage p\n\nvar Car = 1\n"
+	case "hdr":
+		// excluded by its header, in one of four ways (chosen by the case itself)
+		hs := []string{"//go:build ignore", "//go:build " + other, "// +build neverset", "//go:build go1.99"}
+		return "a_car.go", hs[len(k.content())%len(hs)] + "\n\n// yaegi:tags foo\n\npackage p\n\nvar Car = 1\n"
+	case "name":
+		return "a_car_" + other + ".go", "// yaegi:tags foo\n\npackage p\n\nvar Car = 1\n"
+	}
+	return "", ""
 }
 
 type beh struct {
@@ -154,6 +172,9 @@ func (k *kase) tags() []string {
 	for _, t := range k.YTags {
 		m[t] = true
 	}
+	if k.Car == "incl" {
+		m["foo"] = true
+	}
 	var r []string
 	for t := range m {
 		r = append(r, t)
@@ -197,6 +218,9 @@ func (k *kase) observe() (o obs) {
 		"main.go":                  &fstest.MapFile{Data: []byte(k.mainSrc())},
 		"gp/src/p/base.go":         &fstest.MapFile{Data: []byte("package p\n\nvar Base = 1\n")},
 		"gp/src/p/" + k.fileName(): &fstest.MapFile{Data: []byte(k.content())},
+	}
+	if cn, cc := k.carrier(); cn != "" {
+		mfs["gp/src/p/"+cn] = &fstest.MapFile{Data: []byte(cc)}
 	}
 	var _ fs.FS = mfs
 	i := interp.New(interp.Options{GoPath: "./gp", SourcecodeFilesystem: mfs, BuildTags: append([]string(nil), k.OptTags...)})
@@ -247,6 +271,9 @@ func (k *kase) trigger(c *fw.Ctx) string {
 		f = append(f, "attached")
 	}
 	f = append(f, "hdr="+k.H.Kind)
+	if k.Car != "" && k.Car != "none" {
+		f = append(f, "yaegi:tags carrier="+k.Car)
+	}
 	l := append([]string{""}, k.Els...)
 	if k.Test {
 		l = append(l, "test")
@@ -402,7 +429,7 @@ func check(c *fw.Ctx, all []beh) error {
 				continue
 			}
 			c.DisagreeChk++
-			key := k.fileName() + "|" + k.content() + "|" + strings.Join(k.OptTags, ",") + "|" + strings.Join(k.YTags, ",") + "|" + k.Load
+			key := k.fileName() + "|" + k.content() + "|" + strings.Join(k.OptTags, ",") + "|" + strings.Join(k.YTags, ",") + "|" + k.Load + "|" + k.Car
 			nontrivial := k.H.Kind != "none" || len(k.Els) > 0
 			c.Count(key, nontrivial)
 			c.TracesVsImpl++
